@@ -256,6 +256,13 @@ def meansTAt (x : MeansIn) (rowOrder colOrder : List Int) (colIdx : Nat) : List 
 def meansPAt (x : MeansIn) (rowOrder colOrder : List Int) (colIdx : Nat) : List (List Out) :=
   assemble (x.nr + x.nRowSubs) (x.nc + x.nColSubs) rowOrder colOrder (x.p (colOrder.getD colIdx 0))
 
+/-! ### which test runs (`_Slice._cube_has_overlaps`) -/
+
+/-- the overlap-corrected variant replaces the ordinary column test only for multiple-response
+    columns whose response carries BOTH the `overlap` and the `valid_overlap` measure -/
+def usesOverlapPath (columnsAreMR hasOverlap hasValidOverlap : Bool) : Bool :=
+  columnsAreMR && hasOverlap && hasValidOverlap
+
 /-! ### overlap variant (`_PairwiseSignificaneBetweenSubvariablesHelper`) -/
 
 /-- `sel[i][a][b]`, `valid[i][a][b]`: selected / valid overlap bases per row -/
